@@ -1125,6 +1125,9 @@ func (s *sim) start(method string, key string, p *simPub, withGcp bool, hasDl bo
 		if len(p.snap) > 1 {
 			s.hit("C02.least-loaded-multi")
 		}
+		if attempts > 0 && s.prop == "C03" {
+			s.fail("C03.growth-unsaturated", "", "pool grew although a READY channel has %d < watermark %d streams", mn, s.wm)
+		}
 		if ch == nil || !inSnap(ch) || inflightBefore[ch] != mn {
 			s.fail("C02.least-loaded", cls, "min in-flight over the picker's channels is %d: got %s (in-flight %d) err=%v", mn, simChID(ch), inflightBefore[ch], err)
 		}
@@ -1722,6 +1725,25 @@ func simRunCase(env vEnv, out *vOut, idx int64) *sim {
 	if b["saturate"] {
 		cp.MaxConcurrentStreamsLowWatermark = uint32(1 + rng.Intn(2))
 	}
+	highWM, bigPool := false, false
+	if s.prop == "C03" && !b["hostile"] && rng.Chance(3) {
+		// a legal watermark above the default of 100: growth may not start before
+		// every READY channel really carries that many streams
+		cp.MinSize, cp.MaxSize = 1, uint32(2+rng.Intn(2))
+		cp.MaxConcurrentStreamsLowWatermark = []uint32{101, 102, 120, 150}[rng.Intn(4)]
+		highWM = true
+		delete(b, "rr")
+		delete(b, "factoryfail")
+	}
+	if b["rr"] && !b["hostile"] && rng.Chance(25) {
+		// larger pools (even sizes that are not powers of two included)
+		n := []uint32{5, 6, 7, 8, 10, 12}[rng.Intn(6)]
+		bigPool = true
+		cp.MinSize, cp.MaxSize = n, n
+		if rng.Chance(30) {
+			cp.MinSize = n - 1 - uint32(rng.Intn(2))
+		}
+	}
 	cp.FallbackToReady = rng.Bool()
 	if b["fallback"] {
 		cp.FallbackToReady = true
@@ -1809,6 +1831,22 @@ func simRunCase(env vEnv, out *vOut, idx int64) *sim {
 	}
 	if b["extreme"] && s.viol == nil && !s.dead {
 		s.refreshChain(1 + rng.Intn(70))
+	}
+	if highWM && s.viol == nil && !s.dead {
+		s.macroFillToWatermark()
+	}
+	if bigPool {
+		// bring the whole pool up first (otherwise most of the history is spent on it)
+		for _, ch := range s.pool() {
+			for guard := 0; !ch.ready() && guard < 4 && s.viol == nil && !s.dead; guard++ {
+				if ch.conn.state == connectivity.Idle {
+					s.report(ch.conn, connectivity.Connecting)
+				} else {
+					s.report(ch.conn, connectivity.Ready)
+				}
+			}
+		}
+		s.hit("C09.big-pool")
 	}
 	nOps := 30 + rng.Intn(90)
 	macroAt := -1
@@ -2424,6 +2462,33 @@ func (s *sim) refreshChain(n int) {
 				s.report(r, connectivity.Ready)
 			}
 		}
+	}
+}
+
+// macroFillToWatermark: one READY channel, unkeyed calls are started (none
+// completes) until the channel carries watermark+1 streams: judged by the
+// ordinary rules (no growth below the watermark, growth attempt and "wait" at it).
+func (s *sim) macroFillToWatermark() {
+	p := s.pool()
+	if len(p) == 0 {
+		return
+	}
+	ch := p[0]
+	for guard := 0; !ch.ready() && guard < 6 && s.viol == nil && !s.dead; guard++ {
+		if ch.conn.state == connectivity.Idle {
+			s.report(ch.conn, connectivity.Connecting)
+		} else {
+			s.report(ch.conn, connectivity.Ready)
+		}
+	}
+	if !ch.ready() || len(s.pubs) == 0 {
+		return
+	}
+	for i := 0; i < s.wm+2 && s.viol == nil && !s.dead; i++ {
+		s.start("/v/plain", "", s.pubs[len(s.pubs)-1], true, false, 0, nil, false)
+	}
+	if s.viol == nil && !s.dead {
+		s.hit("C03.filled-to-high-watermark")
 	}
 }
 
